@@ -10,12 +10,18 @@ from .c02_single import covers_pos, blocks_of
 from .lib import LIB  # noqa
 
 
-def coding_tx(S, n):
+def coding_tx(S, n, chunk=False):
     starts, ends = block_lists(S, "tx", n)
     strand = strand_of(S, "strand")
     cds_s, cds_e, c0, c1 = cds_in_exons(S, starts, ends)
     zero = S.enum_const(FRAME, "ZERO")
-    tx = S.new(TRANSCRIPT, starts, ends, strand, cds_starts=cds_s, cds_ends=cds_e, cds_frames=[zero] * n)
+    cp = None
+    if chunk:
+        from .c04_liftover import chunk_parent
+        cp, cs, ce = chunk_parent(S)
+        S.assume(And(cs <= starts[0], ends[-1] <= ce))  # the chunk contains the whole transcript
+    tx = S.new(TRANSCRIPT, starts, ends, strand, cds_starts=cds_s, cds_ends=cds_e, cds_frames=[zero] * n,
+               parent_or_seq_chunk_parent=cp)
     plus = (strand.members[strand.idx][0] if hasattr(strand, "members") else strand.name) == "PLUS"
     return NS(tx=tx, starts=starts, ends=ends, cds_s=cds_s, cds_e=cds_e, c0=c0, c1=c1, plus=plus, n=n)
 
@@ -50,10 +56,10 @@ class PosCommute(Case):
     props = ("C06",)
     func = TRANSCRIPT + ".transcript_pos_to_cds"
 
-    def __init__(self, n):
-        self.n = n
-        self.tier = "thorough" if n >= 3 else "quick"
-        self.name = f"TranscriptInterval position conversions commute[{n} exons]"
+    def __init__(self, n, chunk=False):
+        self.n, self.chunk = n, chunk
+        self.tier = "thorough" if (n >= 3 or (chunk and n >= 2)) else "quick"
+        self.name = f"TranscriptInterval position conversions commute[{n} exons{', on a sequence chunk' if chunk else ''}]"
         self.call = ("(tx.sequence_pos_to_cds(p), tx.transcript_pos_to_cds(tx.sequence_pos_to_transcript(p)), "
                      "tx.cds_pos_to_sequence(tx.sequence_pos_to_cds(p)), "
                      "tx.transcript_pos_to_sequence(tx.sequence_pos_to_transcript(p)), "
@@ -70,13 +76,17 @@ class PosCommute(Case):
         }
 
     def inputs(self, S):
-        i = coding_tx(S, self.n)
+        i = coding_tx(S, self.n, self.chunk)
         i.p = S.int("p")
         return i
 
     def samples(self, rng):
         d = sample_tx(rng, self.n)
         d["p"] = rng.randint(d["tx_starts"][0] - 1, d["tx_ends"][-1] + 1)
+        if self.chunk:
+            cs = rng.randint(0, d["tx_starts"][0])
+            ce = d["tx_ends"][-1] + rng.randint(0, 3)
+            d.update(chunk_start=cs, chunk_end=ce, chunk_seq="".join(rng.choice("ACGT") for _ in range(ce - cs)))
         return d
 
 
@@ -179,5 +189,5 @@ class Introns(Case):
         return [obs_loc(r[0])[:2], obs_loc(r[1])[:2]]
 
 
-CASES = [PosCommute(1), PosCommute(2), PosCommute(3), TxOutsideCds(2), UtrPartition(1), UtrPartition(2),
+CASES = [PosCommute(1), PosCommute(2), PosCommute(3), PosCommute(1, True), PosCommute(2, True), TxOutsideCds(2), UtrPartition(1), UtrPartition(2),
          UtrPartition(3), Introns(2), Introns(3)]
